@@ -442,6 +442,8 @@ def replay(rep):
             fails, used, ok = _sweep_work((sc, hs, cf, c["std"], c["form"], names, sorted(macros)))
             for f in fails[:10]:
                 print("problem:", f[0], "|", f[2])
+            if not fails:
+                print(f"typedef sweep fine: {used} names declared and found, -std={c['std']} {c['form']} form")
             return 1 if fails else 0
         sel = c["headers"]
         if sel == ["<all, directory order>"]:
